@@ -362,6 +362,24 @@ def r2(ctx):
                "killed object stays reachable by full id", k.describe(after))
 
 
+def r2_strong_indices(ctx):
+    """The index tables own the tracked objects: they are never bound to a weakref container."""
+    repo = ctx.repo
+    n = 0
+    for field in ("_fullid_lookup", "localid_lookup", "_orphans", "_object_futures"):
+        for f, st in fast_writers_of(repo, field):
+            if st.kind != "assign" or st.value is None or st.path.split(".")[-1] != field:
+                continue
+            n += 1
+            ctor = ap(st.value.func) if isinstance(st.value, ast.Call) else None
+            weak = ctor is not None and (ctor.startswith("weakref.") or ctor.split(".")[-1].startswith("Weak"))
+            ctx.ob("C14.R2", f"{f.qual}: {field} is bound to a container that keeps its values alive", not weak,
+                   ctx.w(f, st.node), f"{field} = {norm(st.value)}: an index that holds its objects weakly loses every "
+                                      f"object nobody else references (e.g. one moved to an untracked region) without a "
+                                      f"kill, so lookups stop containing exactly the announced objects")
+    ctx.floor("C14.R2", "index table bindings", n, 4)
+
+
 def r2_kill_blocks(ctx):
     """Every ObjectData block of a KillObject is applied (no path of an iteration skips the kill)."""
     h = Fn(ctx, f"{WM}._handle_kill_object")
@@ -515,15 +533,47 @@ def r3(ctx):
 # --------------------------------------------------------------------------- R4
 
 def _futures_key_layout(ctx, reg: Fn):
-    """(arity, index of the update-type component) from register_future's stored key."""
-    sets = [s for s in stores(reg.tree, into_defs=False) if s.kind == "setitem" and s.path.endswith("._object_futures")]
-    ctx.require(len(sets) >= 1, "register_future no longer stores into _object_futures")
-    key = origin(reg.tree, sets[0].target.slice)
+    """Registration sites of register_future (`T[k] = lst` or `T.setdefault(k, [])`), the key tuple, its arity
+    and the index of the update-type component."""
+    sites = []
+    for s in stores(reg.tree, into_defs=False):
+        if not s.path.endswith("._object_futures"):
+            continue
+        if s.kind == "setitem":
+            sites.append({"node": s.node, "key": s.target.slice, "value": s.value, "call": None})
+        elif s.kind == "mutcall" and s.method == "setdefault" and s.node.args:
+            sites.append({"node": s.node, "key": s.node.args[0], "value": None, "call": s.node})
+    ctx.require(len(sites) >= 1, "register_future no longer stores into _object_futures")
+    key = origin(reg.tree, sites[0]["key"])
     ctx.require(isinstance(key, ast.Tuple), f"register_future key is not a tuple literal: {norm(key)}")
     typed = {a.arg for a in reg.tree.args.args if a.annotation is not None and "ObjectUpdateType" in ast.unparse(a.annotation)}
     tpos = [i for i, e in enumerate(key.elts) if isinstance(e, ast.Name) and e.id in typed]
     ctx.require(len(tpos) == 1, "cannot tell which key component of _object_futures is the update type")
-    return sets, key, len(key.elts), tpos[0]
+    return sites, key, len(key.elts), tpos[0]
+
+
+def _key_parts(lp, over_items: bool):
+    """(name of the key variable or None, names of destructured key components or None) of a loop over the table."""
+    t = lp.target
+    if over_items:
+        if not (isinstance(t, (ast.Tuple, ast.List)) and len(t.elts) == 2):
+            return None, None
+        t = t.elts[0]
+    if isinstance(t, ast.Name):
+        return t.id, None
+    if isinstance(t, (ast.Tuple, ast.List)) and all(isinstance(e, ast.Name) for e in t.elts):
+        return None, [e.id for e in t.elts]
+    return None, None
+
+
+def _projection_index(e, keyvar, comps) -> Optional[int]:
+    """Index of the key component an expression denotes (`key[i]` or the i-th destructured name)."""
+    if keyvar and isinstance(e, ast.Subscript) and isinstance(e.value, ast.Name) and e.value.id == keyvar \
+            and isinstance(e.slice, ast.Constant) and isinstance(e.slice.value, int):
+        return e.slice.value
+    if comps and isinstance(e, ast.Name) and e.id in comps:
+        return comps.index(e.id)
+    return None
 
 
 def _cancel_all_loops(fn: Fn):
@@ -619,18 +669,17 @@ def r4(ctx):
             if not (p.endswith("._object_futures") or p.endswith("._object_futures.items()")
                     or p.endswith("._object_futures.keys()")):
                 continue
-            keyvar = lp.target.elts[0] if isinstance(lp.target, ast.Tuple) and p.endswith(".items()") else lp.target
-            if not isinstance(keyvar, ast.Name):
+            keyvar, comps = _key_parts(lp, p.endswith(".items()"))
+            if keyvar is None and comps is None:
                 raise AnalysisError(f"{f.qual}: loop over _object_futures with unsupported target {norm(lp.target)}")
-            projs = {x.slice.value for x in walk(lp) if isinstance(x, ast.Subscript) and isinstance(x.value, ast.Name)
-                     and x.value.id == keyvar.id and isinstance(x.slice, ast.Constant) and isinstance(x.slice.value, int)
-                     and isinstance(parent(x), ast.Compare)}
+            projs = {_projection_index(x, keyvar, comps) for c_ in walk(lp) if isinstance(c_, ast.Compare)
+                     for x in [c_.left] + list(c_.comparators)} - {None}
             if not projs:
                 continue
             nloops += 1
             partial = len(projs) < arity
             exits = [x for x in walk(lp) if isinstance(x, (ast.Break, ast.Return))]
-            ctx.ob("C14.R4", f"{f.qual}: filter on {keyvar.id}[{','.join(map(str, sorted(projs)))}] of _object_futures "
+            ctx.ob("C14.R4", f"{f.qual}: filter on key component {','.join(map(str, sorted(projs)))} of _object_futures "
                              f"visits every key", not (partial and exits), ctx.w(f, exits[0] if exits else lp),
                    f"keys are {arity}-tuples {norm(key)}; a filter on a projection can match several keys, leaving the "
                    f"loop at the first match skips the others")
@@ -640,15 +689,20 @@ def r4(ctx):
     cpar = can.params[1]
     cmp_ok, cancel_ok = False, False
     for lp in [n for n in walk(can.tree) if isinstance(n, ast.For)]:
+        pth = ap(strip_copy(lp.iter)[0]) or ""
+        if not (pth.endswith("._object_futures") or pth.endswith("._object_futures.items()")
+                or pth.endswith("._object_futures.keys()")):
+            continue
+        keyvar, comps = _key_parts(lp, pth.endswith(".items()"))
         for c in find_calls(lp, "cancel", into_defs=False):
             fs = facts(c, can.tree)
             for e, pol in fs:
                 if isinstance(e, ast.Compare) and len(e.ops) == 1 and (
                         (isinstance(e.ops[0], ast.Eq) and pol) or (isinstance(e.ops[0], ast.NotEq) and not pol)):
                     sides = [e.left, e.comparators[0]]
-                    sub = [s for s in sides if isinstance(s, ast.Subscript) and isinstance(s.slice, ast.Constant)]
-                    oth = [s for s in sides if ap(s) == cpar]
-                    if sub and oth and sub[0].slice.value in idpos:
+                    sub = [_projection_index(s_, keyvar, comps) for s_ in sides]
+                    oth = [s_ for s_ in sides if ap(s_) == cpar]
+                    if oth and any(i is not None and i in idpos for i in sub):
                         cmp_ok = True
                         cancel_ok = len(fs) == 1
     # equivalent form: direct lookups of (local_id, t) for EVERY member t of the update-type key space
@@ -702,19 +756,30 @@ def r4(ctx):
            f"register stores {norm(key)}, resolve looks up {norm(rk) if rk is not None else None}")
 
     # (f) register_future keeps earlier waiters of the key, appends and returns the new future
-    for s in sets:
-        v = origin(reg.tree, s.value)
-        keeps = isinstance(v, ast.Call) and call_attr(v) in ("get", "setdefault") and isinstance(v.func, ast.Attribute) \
-            and (ap(v.func.value) or "").endswith("._object_futures") and v.args \
-            and norm(origin(reg.tree, v.args[0])) == norm(key)
+    rets = [r for r in walk(reg.tree) if isinstance(r, ast.Return)]
+    rv = ap(rets[0].value) if len(rets) == 1 and rets[0].value is not None else None
+    for site in sets:
+        if site["call"] is None:
+            v = origin(reg.tree, site["value"])
+            keeps = isinstance(v, ast.Call) and call_attr(v) in ("get", "setdefault") and isinstance(v.func, ast.Attribute) \
+                and (ap(v.func.value) or "").endswith("._object_futures") and v.args \
+                and norm(origin(reg.tree, v.args[0])) == norm(key)
+            lst = ap(site["value"])
+            shown = norm(site["value"])
+        else:   # T.setdefault(key, <fresh list>) returns the list already registered, if any
+            dflt = site["call"].args[1] if len(site["call"].args) > 1 else None
+            keeps = dflt is not None and ((isinstance(dflt, ast.List) and not dflt.elts)
+                                          or (isinstance(dflt, ast.Call) and ap(dflt.func) == "list" and not dflt.args))
+            st_ = enclosing_stmt(site["call"])
+            lst = st_.targets[0].id if isinstance(st_, ast.Assign) and len(st_.targets) == 1 \
+                and isinstance(st_.targets[0], ast.Name) and st_.value is site["call"] else None
+            shown = norm(site["call"])
         ctx.ob("C14.R4", f"{RS}.register_future stores back the list already registered for the key", bool(keeps),
-               reg.w(s.node), f"stored value {norm(s.value)} does not come from _object_futures.get(<same key>, ...): "
-                              f"earlier waiters on the key are dropped and never resolved or cancelled")
-        lst = ap(s.value)
-        rets = [r for r in walk(reg.tree) if isinstance(r, ast.Return)]
-        rv = ap(rets[0].value) if len(rets) == 1 and rets[0].value is not None else None
+               reg.w(site["node"]), f"stored value {shown} does not come from _object_futures.get/setdefault(<same key>, "
+                                    f"<fresh list>): earlier waiters on the key are dropped and never resolved or cancelled")
         apps = [c for c in find_calls(reg.tree, "append", into_defs=False)
-                if isinstance(c.func, ast.Attribute) and ap(c.func.value) == lst and c.args and ap(c.args[0]) == rv]
+                if isinstance(c.func, ast.Attribute) and c.args and ap(c.args[0]) == rv
+                and ((lst is not None and ap(c.func.value) == lst) or c.func.value is site["call"])]
         wit = must_pass(reg.cfg, [n for c in apps for n in reg.nodes(c)])
         ctx.ob("C14.R4", f"{RS}.register_future appends the returned future to the stored list", bool(apps) and wit is None
                and rv is not None, reg.fi.where, "the returned future is not reachable from _object_futures")
@@ -1060,6 +1125,7 @@ def run(ctx):
     r1(ctx)
     r2(ctx)
     r2_kill_blocks(ctx)
+    r2_strong_indices(ctx)
     r7(ctx)
     r3(ctx)
     r4(ctx)
